@@ -15,9 +15,10 @@ NEW_THEOREMS = [
     "reverse_bits_involution", "reverse_bits_out_of_range",
     "bcd_roundtrip", "bcd_from_str_documented", "bcd_from_str_accepts_only", "bcd_from_str_rejects", "bcd_check_is_bcd",
     "pattern_block_stream", "numeric_pattern_unit", "align_block_padding_is_pattern", "align_block_total",
+    "bcd_constructor_accepts_iff", "bcd_valid_is_decimal_nibbles", "bcd_from_str_hex_components", "bcd_to_version_is_from_str",
 ]
 NEW_DEPS = ["Proofs/MiscGrammarProofs.vo", "Proofs/MiscBitsProofs.vo", "Proofs/MiscBcdProofs.vo",
-            "Proofs/MiscPatternProofs.vo"]
+            "Proofs/MiscPatternProofs.vo", "Proofs/MiscBcdCtorProofs.vo"]
 
 
 # ------------------------------------------------------------------ independent specifications
@@ -67,6 +68,29 @@ def f1_value(s, grammar_value):
     if rest.startswith("_"):
         rest = rest[1:]
     return grammar_value("0b" + rest)
+
+
+_HEX_COMP = re.compile(r"[0-9a-fA-F]{1,4}")
+
+
+def bcd_component_ok(v):
+    """The contract of one version component: at most 4 nibbles, every nibble a decimal digit (arithmetic only)."""
+    if v < 0 or v >= 16 ** 4:
+        return False
+    while v:
+        if v % 16 > 9:
+            return False
+        v //= 16
+    return True
+
+
+def hex_text(v):
+    out = ""
+    while True:
+        out = "0123456789ABCDEF"[v % 16] + out
+        v //= 16
+        if not v:
+            return out
 
 
 _DOC_BCD = re.compile(r"[0-9]{1,4}\.[0-9]{1,4}\.[0-9]{1,4}")
@@ -129,9 +153,9 @@ def ext_oracle(case, res, grammar_value):
             if x < (1 << bits) and mirror(val, max(bits, 1)) != x:
                 return False, ("reverse_bits:not-involutive", f"reverse_bits({x},{bits}) = {val}")
         return False, None
-    if fn == 15:
+    if fn in (15, 18):
         s = a[0]
-        name = "BcdVersion3"
+        name = "BcdVersion3" if fn == 15 else "BcdVersion3.to_version"
         parts = s.split(".")
         if _DOC_BCD.fullmatch(s):
             want = ".".join(str(int(p)) for p in parts)
@@ -143,8 +167,20 @@ def ext_oracle(case, res, grammar_value):
         if ok:
             if len(parts) != 3 or any(len(p) > 4 for p in parts):
                 return True, (f"{name}:accepts-invalid", f"from_str({s!r}) = {val!r}")
+            if all(_HEX_COMP.fullmatch(p) for p in parts):
+                # components written as 1..4 hex digits: accepted iff every nibble is decimal (and then it is documented text)
+                return True, (f"{name}:accepts-non-decimal-nibble", f"from_str({s!r}) = {val!r}")
             if not _CANON_BCD.fullmatch(val):
                 return True, (f"{name}:non-bcd-result", f"str(from_str({s!r})) = {val!r}")
+        return True, None
+    if fn == 17:
+        name = "BcdVersion3()"
+        valid = all(bcd_component_ok(v) for v in a)
+        if valid != ok:
+            return True, (f"{name}:{'rejects-valid' if valid else 'accepts-non-bcd'}",
+                          f"BcdVersion3({', '.join(hex(v) for v in a)}) {'rejected' if valid else '= ' + repr(val)}")
+        if ok and val != ".".join(hex_text(v) for v in a):
+            return True, (f"{name}:wrong-text", f"str(BcdVersion3({', '.join(hex(v) for v in a)})) = {val!r}")
         return True, None
     if fn == 16:
         sz, ptag, pv = a
@@ -171,6 +207,39 @@ def ext_streams(tier, rng):
     vers = [".".join(t) for t in itertools.product(comps, repeat=3)]
     vers += [".".join(t) for k in (1, 2, 4) for t in itertools.product(comps[:3], repeat=k)]
     cases["BcdVersion3 all triples over a component set (documented, non-canonical, invalid)"] = ([[15, VS(s)] for s in vers], True)
+    # near-valid BCD components: every hex text of <= 3 digits, and 4-digit shapes with exactly one non-decimal nibble at
+    # each position, in each of the three components; through from_str, the constructor and to_version
+    hexd = "0123456789abcdef"
+    texts = ["".join(t) for k in (1, 2, 3) for t in itertools.product(hexd, repeat=k)]
+    near4 = []
+    for pos in range(4):
+        for letter in "abcdefAF":
+            for others in itertools.product("059", repeat=3):
+                d = list(others)
+                d.insert(pos, letter)
+                near4.append("".join(d))
+    if thorough:
+        texts4 = ["".join(t) for t in itertools.product(hexd, repeat=4)]
+    else:
+        texts4 = near4 + ["9999", "0000", "1234", "9A99", "FFFF"]
+    def place(i, t, fill="1"):
+        c = [fill, fill, fill]
+        c[i] = t
+        return c
+    fs = [".".join(place(i, t)) for i in range(3) for t in texts + near4] + [".".join(place(0, t, "9999")) for t in texts4]
+    fs += ["10000.1.1", "1.10000.1", "1.1.10000", "-1.1.1", "1.-1.1", "1.1.-1", "9999.9999.9999", "999A.9999.9999", "9999.9999.999a",
+           "1a.2b.3c", "1.2b.3", "9F99.0.0", "1A.0.0", "0x1A.0.0", "+1a.0.0", " 1a.0.0", "1_a.0.0"]
+    cases["BcdVersion3.from_str near-valid components (all hex texts of <= 3 digits per position, one bad nibble in 4)"] = (
+        [[15, VS(s)] for s in fs], True)
+    nums = list(range(0, 0x1000)) + [int(t, 16) for t in near4]
+    edge = [0x9999, 0x999A, 0x99A9, 0x9A99, 0xA999, 0xFFFF, 0x10000, 0x10001, 0x19999, 0x99999, 1 << 32, -1, -0x10, -0x9999, 0xF, 0xF1]
+    ctor = [[17] + [VI(v) for v in place(i, n, 1)] for i in range(3) for n in nums + edge]
+    ctor += [[17, VI(x), VI(y), VI(z)] for x in (0, 0x9999, 0x1A, 0x10000) for y in (0, 0x9999, 0xB1, -1) for z in (0, 0x9999, 0x9F99, 0x12)]
+    if thorough:
+        ctor += [[17, VI(n), VI(0x9999), VI(0)] for n in range(0x1000, 0x10000)]
+    cases["BcdVersion3(major, minor, service) near-valid numbers (all values < 0x1000 per position, one bad nibble in 4, edges)"] = (ctor, True)
+    cases["BcdVersion3.to_version(text) near-valid components"] = (
+        [[18, VS(".".join(place(i, t)))] for i in range(3) for t in near4 + texts[:272:3]] + [[18, VS(s)] for s in fs[-17:]], False)
     pats = [(0, 0), (1, 0), (2, 0), (3, 0), (3, 1), (3, 0xFF), (3, 0x100), (3, 0x010203), (3, -1), (3, -256)]
     sizes = list(range(0, 13)) + ([255, 256, 257, 513] if thorough else [257])
     blk = [[16, VI(sz), VI(pt), VI(pv)] for sz in sizes for (pt, pv) in pats]
